@@ -1301,7 +1301,8 @@ def list_method(interp, ref, o: HList, name, args, kwargs, node):
         a = interp.as_coll(ref)
         b = interp.as_coll(args[0])
         sym = {"union": "|", "intersection": "&", "difference": "-"}[name]
-        return ElemV(("setop", sym, a.var, b.var if b else desc(args[0])), "set", fam=a.fam)
+        role = a.fam if isinstance(a.fam, str) else (b.fam if b is not None and isinstance(b.fam, str) else "plain")
+        return ElemV(("setop", sym, a.var, b.var if b else desc(args[0])), "set", fam=role, cls=a.cls or (b.cls if b is not None else ""))
     if name == "get":
         return Sym(("item", interp.list_desc(o), desc(args[0])))
     if name == "__iter__":
@@ -1633,7 +1634,8 @@ def elem_method(interp, v: ElemV, name, args, kwargs, node):
         if name in ("union", "intersection", "difference"):
             b = interp.as_coll(args[0]) if not isinstance(args[0], ElemV) else args[0]
             sym = {"union": "|", "intersection": "&", "difference": "-"}[name]
-            return ElemV(("setop", sym, v.var, b.var if b is not None else desc(args[0])), "set", v.fam, v.cls)
+            role = v.fam if isinstance(v.fam, str) else (b.fam if b is not None and isinstance(b.fam, str) else "plain")
+            return ElemV(("setop", sym, v.var, b.var if b is not None else desc(args[0])), "set", role, v.cls or (b.cls if b is not None else ""))
         if name == "copy":
             interp.log("copy", node, src=v, dst=v)
             return v
